@@ -215,7 +215,73 @@ def suite_nonsym(ctx, case):
     same2 = all(t[types[i], types[j]] == before[(i, j)] for i in range(n) for j in range(n))
     ctx.pred('nonsym', case, same and same2, 'apply(inplace=False) on a non-symmetric table changed the original table (or shares objects / rows with it)', key='C14:nonsym')
 
-SUITES = {'pairtable': suite_pt, 'valuetable': suite_vt, 'nonsym': suite_nonsym}
+def mk_value(kind, seed):
+    rs = np.random.RandomState(seed)
+    if kind == 'float': return float(rs.uniform(-3, 3))
+    if kind == 'nested': return [[float(rs.uniform()), 2.0], {'a': [1.0, float(rs.uniform())]}]
+    if kind == 'ndarray': return rs.normal(size=5)
+    if kind == 'view': return rs.normal(size=10)[::-2]                       # a negatively strided view
+    if kind == 'masked': return np.ma.masked_array([1.5, np.inf, float(rs.uniform()), 3.0], mask=[False, True, False, False])      # tabulated data with masked (invalid) points
+    if kind == 'objarr':
+        a = np.empty(2, dtype=object); a[0] = [1.0, float(rs.uniform())]; a[1] = {'w': [2.0]}; return a          # an object array of mutable items
+    if kind == 'int': return int(rs.randint(-5, 5))
+    return (float(rs.uniform()), [1.0, 2.0])
+
+def same_value(a, b):
+    if type(a) is not type(b): return False
+    if isinstance(a, np.ma.MaskedArray):
+        return bool(np.array_equal(np.ma.getmaskarray(a), np.ma.getmaskarray(b))) and bool(np.array_equal(a.filled(0.0), b.filled(0.0)))
+    if isinstance(a, np.ndarray):
+        if a.dtype != b.dtype or a.shape != b.shape: return False
+        return all(same_value(x, y) for x, y in zip(a, b)) if a.dtype == object else bool(np.array_equal(a, b))
+    if isinstance(a, (list, tuple)): return len(a) == len(b) and all(same_value(x, y) for x, y in zip(a, b))
+    if isinstance(a, dict): return a.keys() == b.keys() and all(same_value(a[k], b[k]) for k in a)
+    return a == b
+
+def mutate(v):
+    """change a value in place as deeply as possible"""
+    if isinstance(v, np.ma.MaskedArray): v.mask = np.ma.nomask; v.data[...] = -9.0
+    elif isinstance(v, np.ndarray) and v.dtype == object:
+        for x in v: mutate(x)
+    elif isinstance(v, np.ndarray): v[...] = -9.0
+    elif isinstance(v, list):
+        for x in v: mutate(x)
+        v.append(-9.0)
+    elif isinstance(v, dict):
+        for x in v.values(): mutate(x)
+        v['zz'] = -9.0
+    elif isinstance(v, tuple):
+        for x in v: mutate(x)
+
+def suite_valuekinds(ctx, case):
+    """the value a table holds is EXACTLY the value assigned (same class, same content, masks included), whatever kind of object it is;
+    it is nobody else's object: mutating the caller's value, or what another pair / type holds, does not reach it"""
+    n = case['n']; types = list(LABELS['names'][:n]); kind = case['kind']
+    for tname in ('pair', 'value'):
+        tab = PairTable(types, 'x') if tname == 'pair' else ValueTable(types, 'x')
+        keys = [(types[i], types[j]) for i in range(n) for j in range(i, n)] if tname == 'pair' else [types[i] for i in range(n)]
+        rd = (lambda k: tab[k[0], k[1]]) if tname == 'pair' else (lambda k: tab[k])
+        how = case['how']
+        v = mk_value(kind, case['seed']); pristine = copy.deepcopy(v)
+        if how == 'group':
+            if tname == 'pair': tab[types, types] = v
+            else: tab[types] = v
+        elif how == 'setunset': tab.setUnset(v)
+        else:
+            for k in keys:
+                if tname == 'pair': tab[k[0], k[1]] = v
+                else: tab[k] = v
+        ok = all(same_value(rd(k), pristine) for k in keys); why = 'the stored value is not the value assigned (class %s -> %s)' % (type(pristine).__name__, type(rd(keys[0])).__name__)
+        # independence of the copies is stated for PairTable (a ValueTable holds numbers; it keeps the object it is given)
+        if ok and tname == 'pair':
+            mutate(v)
+            ok = all(same_value(rd(k), pristine) for k in keys); why = 'changing the caller\'s object afterwards changed the stored value'
+        if ok and tname == 'pair' and len(keys) >= 2:
+            mutate(rd(keys[0]))
+            ok = all(same_value(rd(k), pristine) for k in keys[1:]); why = 'changing what one %s holds changed what another holds' % ('pair' if tname == 'pair' else 'type')
+        ctx.pred('valuekinds', case, ok, '%sTable, value kind %s, assigned by %s: %s' % ('Pair' if tname == 'pair' else 'Value', kind, how, why), key='C14:value-kinds')
+
+SUITES = {'pairtable': suite_pt, 'valuetable': suite_vt, 'nonsym': suite_nonsym, 'valuekinds': suite_valuekinds}
 
 def idx_list(rng, n, style):
     if style == 'single': return [rng.randrange(n)]
@@ -255,6 +321,10 @@ def gen_vt(rng, max_ops):
     return {'n': n, 'ops': ops, 'arr': rng.random() < 0.35, 'labels': rng.choice(['names', 'names', 'ints0', 'ints', 'mixed'])}
 
 def generate(ctx):
+    for kind in ('float', 'int', 'nested', 'ndarray', 'view', 'masked', 'objarr', 'tuple'):
+        for how in ('single', 'group', 'setunset'):
+            case = {'n': ctx.rng.choice([2, 3]), 'kind': kind, 'how': how, 'seed': ctx.rng.randrange(10 ** 6)}
+            ctx.case('valuekinds', case, True, tags=['valuekind:' + kind, 'how:' + how]); suite_valuekinds(ctx, case)
     for _ in range(ctx.n(30, 200)):
         rng = ctx.rng; n = rng.choice([2, 3, 4])
         sets = [[rng.randrange(n), rng.randrange(n), [rng.randrange(50) for _ in range(rng.randint(1, 3))]] for _ in range(rng.randint(1, n * n))]
